@@ -131,7 +131,7 @@ Partial ==
 \* the dictionary form reads back to the chain (C11), for every chain of the universe
 RankD == [n \in RangeOf(D) \cup LeafNames |->
              CASE n = "a" -> 3 [] n = "b" -> 1 [] n = "c" -> 5 [] n = "d" -> 2 [] n = "x" -> 4 [] n = "y" -> 6]
-RoundTrip == FromDict(ToDict(c, RankD)) = c
+RoundTrip == FromDict(ToDict(c, RankD)) = [ok |-> TRUE, chain |-> c]
 \* reachability companions (expected to be violated)
 OnePass == ~(pc = "again" /\ further /\ \E j \in DOMAIN keys : Cnt(fs, keys[j]) > 0)
 NoRepeatedDecaying == ~(Finished /\ \E n \in DOMAIN used : used[n] > 1)
